@@ -44,6 +44,9 @@ func main() {
 		fmt.Println("usage: kbv check|dump|list ...")
 		os.Exit(2)
 	}
+	if v := os.Getenv("KBV_VERIF"); v != "" {
+		verifDir = v // a snapshot of /verif (spec, props.json, known findings, templates): used for scratch runs only
+	}
 	switch os.Args[1] {
 	case "check":
 		os.Exit(cmdCheck(os.Args[2:]))
